@@ -1,6 +1,10 @@
 import SJ.Model.IoFault
 import SJ.Proofs.Machine
 import SJ.Proofs.SerUtf8
+import SJ.Proofs.Write
+import SJ.Proofs.WriteBudget
+import SJ.Proofs.WriteTrace
+import SJ.Gen.Write
 /-!
 # C13 — I/O failures surface as Io errors and never corrupt results
 -/
@@ -53,13 +57,16 @@ theorem c13_read_error_class (env : Env) (bs : Bytes) (c : Code) (idx : Nat)
         | error e => obtain ⟨c2, a⟩ := e; rw [hs] at h; simp at h; exact h.1 ▸ (step_err env s b c2 a hs).2
     exact key bs init 0 hf
 
-/-- **C13 (writer).** A writer that accepts `m` bytes and then fails has received exactly the first
-    `m` bytes of the fault-free output, and serialization fails iff `m` is less than its length. -/
+/-- (Lemma about the *definition* `Model.IoFault.writeFault`, which IS `take m` of the concatenated buffers — true by
+    unfolding, not a statement about `write_all` or the serializer. The writer clause of C13 is carried by
+    `c13_write_all_spec`, `c13_writer_prefix`, `c13_writer_ok_iff`, `c13_writer_vec` below, over `Model.Write`; that a
+    writer with a byte budget realises `writeFault` is `c13_writer_budget`.) -/
 theorem c13_write_prefix (bufs : List Bytes) (m : Nat) :
     (writeFault bufs m).1 = (bufs.flatten).take m ∧
     ((writeFault bufs m).2 = true ↔ m < bufs.flatten.length) := by
   simp [writeFault]
 
+/-- (likewise definitional) -/
 theorem c13_write_is_prefix (bufs : List Bytes) (m : Nat) :
     (writeFault bufs m).1 <+: bufs.flatten := by
   simp [writeFault, List.take_prefix]
@@ -104,7 +111,7 @@ example : serCompact extI (.seq none [.str [0xc3, 0xa9, 0x22, 0xc3, 0xa9]])
 example : Spec.Utf8.validUtf8 (([[0x5b], [0x22], [0xc3, 0xa9], [0x5c, 0x22], [0xc3, 0xa9], [0x22], [0x5d]] : List Bytes).take 3).flatten = true :=
   (c13_buffers_utf8 extI extI_ok (.seq none [.str [0xc3, 0xa9, 0x22, 0xc3, 0xa9]]) rfl _ (.inl rfl)).2 3
 
-/-- a fault in the middle of a buffer (`m` bytes, `c13_write_prefix`) can of course split `é` -/
+/-- a fault in the middle of a buffer (`m` bytes) can of course split `é` -/
 example : (writeFault [[0x5b], [0x22], [0xc3, 0xa9]] 3).1 = [0x5b, 0x22, 0xc3] ∧
     Spec.Utf8.validUtf8 [0x5b, 0x22, 0xc3] = false := ⟨rfl, by decide⟩
 
@@ -128,4 +135,356 @@ theorem c13_into_io_error :
     intoIoKind .eof = some [0x55, 0x6e, 0x65, 0x78, 0x70, 0x65, 0x63, 0x74, 0x65, 0x64, 0x45, 0x6f, 0x66] ∧   -- "UnexpectedEof"
     intoIoKind .io = none := by
   exact ⟨rfl, rfl, rfl, rfl, rfl⟩
+end SJ.Props.C13
+
+namespace SJ.Props.C13
+open SJ SJ.Model.Ser SJ.Model.Write SJ.Proofs.Write
+open SJ.Model.IoFault (writeFault)
+
+/-- **C13 (writer: `write_all`).** For every writer — any policy answering each `write(buf)` with a short write,
+    `Ok(0)`, `Interrupted` or an error, as a function of the whole call history — and every bound `fuel` on the number of
+    `write` calls watched, `write_all(buf)` (std's loop, `Model.Write.writeLoop`):
+
+    * leaves the writer holding what it held plus `buf.take k`, the new `write` calls `new` are a run against the
+      policy (`Run`), and no call but the last is fatal (`Ok(0)`, `Ok(n)` with `n > len`, a non-`Interrupted` error);
+    * returns `Ok(())` exactly when it has delivered the whole buffer (`k = buf.length`) without a fatal answer;
+    * returns `Err(e)` only after delivering a proper prefix (`k < buf.length`), when the last call was fatal: `e` is
+      the very error of that call, or `WRITE_ALL_EOF` (kind `WriteZero`) if that call answered `Ok(0)`;
+      `Interrupted` never surfaces (`e.isInterrupted = false`) — such calls are simply repeated with the same buffer;
+    * is still looping after `fuel` calls (`hang`) only with `k < buf.length`, no fatal answer, and `fuel` calls made;
+    * panics (`&buf[n..]`) only if the last call broke the contract `n ≤ buf.len()`. -/
+theorem c13_write_all_spec (fuel : Nat) (w : Writer) (buf : Bytes) :
+    ∃ k new, k ≤ buf.length ∧
+      (w.writeAll fuel buf).1.accepted = w.accepted ++ buf.take k ∧
+      (w.writeAll fuel buf).1.log = w.log ++ new ∧ (w.writeAll fuel buf).1.policy = w.policy ∧
+      Run w.policy w.log new ∧ NoFatal new.dropLast ∧
+      match (w.writeAll fuel buf).2 with
+      | .ok => k = buf.length ∧ NoFatal new
+      | .err e => k < buf.length ∧ e.isInterrupted = false ∧
+          ∃ c, new.getLast? = some c ∧ ((c.res = .ok 0 ∧ e = writeAllEof) ∨ c.res = .err e)
+      | .hang => k < buf.length ∧ NoFatal new ∧ fuel ≤ new.length
+      | .panic => ∃ c n, new.getLast? = some c ∧ c.res = .ok n ∧ c.buf.length < n := by
+  obtain ⟨bytes, new, he, hp, hpost, _⟩ := writeAll_spec fuel w buf
+  have hk : bytes = buf.take bytes.length := List.prefix_iff_eq_take.1 hp
+  have hle : bytes.length ≤ buf.length := hp.length_le
+  refine ⟨bytes.length, new, hle, by rw [he.acc, ← hk], he.log, he.pol, he.run, ?_, ?_⟩
+  · cases ho : (w.writeAll fuel buf).2 with
+    | ok => rw [ho] at hpost; exact fun c hc => hpost.2 c (List.dropLast_subset _ hc)
+    | hang => rw [ho] at hpost; exact fun c hc => hpost.2.1 c (List.dropLast_subset _ hc)
+    | err e =>
+      rw [ho] at hpost; obtain ⟨_, pre, c, hnew, hpre, _⟩ := hpost
+      rw [hnew, List.dropLast_concat]; exact hpre
+    | panic =>
+      rw [ho] at hpost; obtain ⟨pre, c, n, hnew, hpre, _⟩ := hpost
+      rw [hnew, List.dropLast_concat]; exact hpre
+  · cases ho : (w.writeAll fuel buf).2 with
+    | ok => rw [ho] at hpost; exact ⟨by rw [hpost.1], hpost.2⟩
+    | hang => rw [ho] at hpost; exact hpost
+    | err e =>
+      rw [ho] at hpost; obtain ⟨hl, pre, c, hnew, _, hc⟩ := hpost
+      refine ⟨hl, ?_, c, by rw [hnew]; simp, ?_⟩
+      · rcases hc with ⟨_, rfl⟩ | ⟨_, h⟩
+        · rfl
+        · exact h
+      · rcases hc with h | ⟨h, _⟩
+        · exact .inl h
+        · exact .inr h
+    | panic =>
+      rw [ho] at hpost; obtain ⟨pre, c, n, hnew, _, hc⟩ := hpost
+      exact ⟨c, n, by rw [hnew]; simp, hc⟩
+
+/-- **C13 (writer).** For every program `p` that serialises (`ser … = .ok r`: the buffers `r.bufs`, whose
+    concatenation is the fault-free output — `c13_writer_vec`), either formatter, every writer (any policy) and every
+    `fuel`, `to_writer` (`Model.Write.toWriter`) ends with a writer that holds what it held plus `bytes`, where
+
+    * `bytes` is a prefix of the fault-free output, whatever happened;
+    * the new `write` calls are a run against the policy, and **no `write` call is made after the first fatal
+      answer** (`NoFatal new.dropLast`);
+    * the buffers handed to `write_all` are the first `j` buffers of the serializer, in order, and all of the first
+      `j - 1` were delivered whole;
+    * the result is `Ok(())` iff no answer was fatal, and then everything was accepted (`bytes` = the whole output);
+    * the result is `Err(Error::io(e))` (category `Io`) only if a proper prefix was accepted, where `e` is the very
+      error the policy returned in the last call — kind and payload: `Error::io` keeps it and `io::Error::from` gives it
+      back (`Res.intoIo`, from the regenerated `Gen.intoIoKeepsInner`, cf. `c13_into_io_error`) — or `WRITE_ALL_EOF`
+      (kind `WriteZero`) if that call answered `Ok(0)`; never `Interrupted`;
+    * `hang` / `panic` as in `c13_write_all_spec` (a writer answering `Interrupted` for ever; a writer claiming more
+      than it was offered). -/
+theorem c13_writer_prefix (fuel : Nat) (ext : Ext) (fmt : Fmt) (p : SVal) (w : Writer) (r : W)
+    (h : ser ext fmt p FState.init = .ok r) :
+    ∃ w' res, toWriter fuel ext fmt p w = .ok (w', res) ∧
+      ∃ bytes new j, w'.accepted = w.accepted ++ bytes ∧ bytes <+: r.bufs.flatten ∧
+        w'.log = w.log ++ new ∧ w'.policy = w.policy ∧ Run w.policy w.log new ∧ NoFatal new.dropLast ∧
+        w'.handed = w.handed ++ r.bufs.take j ∧ (r.bufs.take (j - 1)).flatten <+: bytes ∧
+        match res with
+        | .ok => bytes = r.bufs.flatten ∧ NoFatal new ∧ r.bufs.length ≤ j
+        | .io e => bytes.length < r.bufs.flatten.length ∧ e.isInterrupted = false ∧ res.intoIo = some e ∧
+            ∃ c, new.getLast? = some c ∧ ((c.res = .ok 0 ∧ e = writeAllEof) ∨ c.res = .err e)
+        | .hang => bytes.length < r.bufs.flatten.length ∧ NoFatal new ∧ fuel ≤ new.length
+        | .panic => ∃ c n, new.getLast? = some c ∧ c.res = .ok n ∧ c.buf.length < n := by
+  obtain ⟨bytes, new, j, he, hp, hpost, hh, hj1, hj2⟩ := runBufs_spec fuel r.bufs w
+  refine ⟨(w.runBufs fuel r.bufs).1, Res.ofOut (w.runBufs fuel r.bufs).2, by simp [toWriter, h], bytes, new, j,
+    he.acc, hp, he.log, he.pol, he.run, ?_, hh, ?_, ?_⟩
+  · cases ho : (w.runBufs fuel r.bufs).2 with
+    | ok => rw [ho] at hpost; exact fun c hc => hpost.2 c (List.dropLast_subset _ hc)
+    | hang => rw [ho] at hpost; exact fun c hc => hpost.2.1 c (List.dropLast_subset _ hc)
+    | err e =>
+      rw [ho] at hpost; obtain ⟨_, pre, c, hnew, hpre, _⟩ := hpost
+      rw [hnew, List.dropLast_concat]; exact hpre
+    | panic =>
+      rw [ho] at hpost; obtain ⟨pre, c, n, hnew, hpre, _⟩ := hpost
+      rw [hnew, List.dropLast_concat]; exact hpre
+  · by_cases ho : (w.runBufs fuel r.bufs).2 = .ok
+    · rw [ho] at hpost
+      rw [hpost.1]
+      conv => rhs; rw [← List.take_append_drop (j - 1) r.bufs]
+      rw [List.flatten_append]; exact List.prefix_append _ _
+    · exact (hj2 ho).2.2
+  · cases ho : (w.runBufs fuel r.bufs).2 with
+    | ok => rw [ho] at hpost; exact ⟨hpost.1, hpost.2, hj1 ho⟩
+    | hang => rw [ho] at hpost; exact hpost
+    | err e =>
+      rw [ho] at hpost; obtain ⟨hl, pre, c, hnew, _, hc⟩ := hpost
+      have hi : e.isInterrupted = false := by
+        rcases hc with ⟨_, rfl⟩ | ⟨_, h⟩
+        · rfl
+        · exact h
+      refine ⟨hl, hi, rfl, c, by rw [hnew]; simp, ?_⟩
+      rcases hc with h | ⟨h, _⟩
+      · exact .inl h
+      · exact .inr h
+    | panic =>
+      rw [ho] at hpost; obtain ⟨pre, c, n, hnew, _, hc⟩ := hpost
+      exact ⟨c, n, by rw [hnew]; simp, hc⟩
+
+/-- **C13 (writer): what the result says about the bytes.** With a writer that keeps the contract of `write`
+    (`Ok(n)` only with `n ≤ buf.len()`), `to_writer` never panics, and its result is `Ok(())` **iff** the writer
+    accepted the whole fault-free output; otherwise (an `Io` error, or an endless `Interrupted` loop) it accepted a
+    proper prefix. -/
+theorem c13_writer_ok_iff (fuel : Nat) (ext : Ext) (fmt : Fmt) (p : SVal) (w : Writer) (r : W)
+    (h : ser ext fmt p FState.init = .ok r) (hw : ∀ log buf n, w.policy log buf = .ok n → n ≤ buf.length) :
+    ∃ w' res bytes, toWriter fuel ext fmt p w = .ok (w', res) ∧ w'.accepted = w.accepted ++ bytes ∧
+      bytes <+: r.bufs.flatten ∧ res ≠ .panic ∧ (res = .ok ↔ bytes = r.bufs.flatten) := by
+  obtain ⟨w', res, ht, bytes, new, j, hacc, hp, hlog, _, hrun, _, _, _, hm⟩ := c13_writer_prefix fuel ext fmt p w r h
+  -- every call of a run against a contract-keeping policy keeps the contract
+  have hrun' : ∀ (cs log0 : List Call), Run w.policy log0 cs → ∀ c ∈ cs, ∀ n, c.res = .ok n → n ≤ c.buf.length := by
+    intro cs
+    induction cs with
+    | nil => intro _ _ c hc; cases hc
+    | cons d ds ih =>
+      intro log0 hr c hc n hn
+      rcases List.mem_cons.1 hc with rfl | hc
+      · exact hw log0 c.buf n (by rw [← hr.1, hn])
+      · exact ih _ hr.2 c hc n hn
+  refine ⟨w', res, bytes, ht, hacc, hp, ?_, ?_⟩
+  · intro hres; rw [hres] at hm
+    obtain ⟨c, n, hl, hc, hlt⟩ := hm
+    have := hrun' new w.log hrun c (List.mem_of_getLast? hl) n hc
+    omega
+  · cases res with
+    | ok => exact ⟨fun _ => hm.1, fun _ => rfl⟩
+    | io e => exact ⟨fun h => (by cases h), fun hb => (by rw [hb] at hm; exact absurd hm.1 (Nat.lt_irrefl _))⟩
+    | hang => exact ⟨fun h => (by cases h), fun hb => (by rw [hb] at hm; exact absurd hm.1 (Nat.lt_irrefl _))⟩
+    | panic =>
+      obtain ⟨c, n, hl, hc, hlt⟩ := hm
+      have := hrun' new w.log hrun c (List.mem_of_getLast? hl) n hc
+      omega
+
+/-- **C13 (writer): the fault-free output.** Into a `Vec<u8>` (`to_vec`; any `fuel ≥ 1`) the result is `Ok(())` and
+    the vector holds the concatenated buffers — the "fault-free output" of `c13_writer_prefix`. -/
+theorem c13_writer_vec (fuel : Nat) (ext : Ext) (fmt : Fmt) (p : SVal) (r : W)
+    (h : ser ext fmt p FState.init = .ok r) :
+    ∃ w', toWriter (fuel + 1) ext fmt p Writer.vec = .ok (w', .ok) ∧ w'.accepted = r.bufs.flatten := by
+  obtain ⟨h1, h2⟩ := runBufs_vec fuel r.bufs Writer.vec rfl
+  refine ⟨(Writer.vec.runBufs (fuel + 1) r.bufs).1, ?_, by simpa [Writer.vec] using h2⟩
+  simp only [toWriter, h, h1, Res.ofOut]
+
+/-- **C13 (writer): a byte budget.** The writer that accepts `m` bytes in all — its last accepted call a short write —
+    and then fails every call with `e` (not `Interrupted`; `Writer.budget m e`): `to_writer` leaves it holding exactly the
+    first `m` bytes of the fault-free output and returns `Err(Error::io(e))` iff `m` is less than its length, `Ok(())`
+    otherwise — i.e. `Model.IoFault.writeFault` (which is *defined* as that `take m`) is what this writer does. -/
+theorem c13_writer_budget (fuel : Nat) (ext : Ext) (fmt : Fmt) (p : SVal) (r : W)
+    (h : ser ext fmt p FState.init = .ok r) (m : Nat) (e : IoError) (he : e.isInterrupted = false) :
+    ∃ w', toWriter (fuel + 2) ext fmt p (Writer.budget m e) =
+        .ok (w', if (writeFault r.bufs m).2 then .io e else .ok) ∧
+      w'.accepted = (writeFault r.bufs m).1 := by
+  obtain ⟨h1, h2⟩ := Proofs.WriteBudget.runBufs_budget m e he fuel r.bufs (Writer.budget m e) 0
+    ⟨rfl, rfl, Nat.zero_le _⟩
+  refine ⟨((Writer.budget m e).runBufs (fuel + 2) r.bufs).1, ?_, by simpa [writeFault, Writer.budget] using h1⟩
+  have hwf : (writeFault r.bufs m).2 = decide (m < r.bufs.flatten.length) := rfl
+  simp only [toWriter, h, h2, Nat.zero_add]
+  rw [hwf]
+  by_cases hm : m < r.bufs.flatten.length
+  · rw [if_neg (Nat.not_le.2 hm), decide_eq_true hm]; rfl
+  · rw [if_pos (Nat.not_lt.1 hm), decide_eq_false hm]; rfl
+
+/-- `["é\"é"]`, budget 3, `BrokenPipe`: holds `["` and the first byte of `é`; budget 10: everything, `Ok` -/
+example : (match toWriter 2 extI .compact (.seq none [.str [0xc3, 0xa9, 0x22, 0xc3, 0xa9]]) (Writer.budget 3 { kind := .other 7 }) with
+    | .ok (w', r) => w'.accepted == [0x5b, 0x22, 0xc3] && r == .io { kind := .other 7 } && w'.calls == 4
+    | .error _ => false) = true := by decide +kernel
+example : (match toWriter 2 extI .compact (.seq none [.str [0xc3, 0xa9, 0x22, 0xc3, 0xa9]]) (Writer.budget 10 { kind := .other 7 }) with
+    | .ok (w', r) => w'.accepted.length == 10 && r == .ok && w'.calls == 7
+    | .error _ => false) = true := by decide +kernel
+
+/-! non-vacuity: `["é\"é"]` (buffers `[`, `"`, `é`, `\"`, `é`, `"`, `]`, 11 bytes) -/
+
+/-- an observation of `toWriter` as a Bool test (closed terms are evaluated by the kernel) -/
+def wtest (fuel : Nat) (script : List Resp) (tail : Resp) (acc : Bytes) (calls : Nat) (handed : List Bytes) (res : Res) : Bool :=
+  match toWriter fuel extI .compact (.seq none [.str [0xc3, 0xa9, 0x22, 0xc3, 0xa9]]) (Writer.script script tail) with
+  | .ok (w', r) => w'.accepted == acc && w'.calls == calls && w'.handed == handed && r == res
+  | .error _ => false
+
+/-- one byte per call, `Interrupted` before the 3rd byte, `BrokenPipe` (tag 7) at the 6th: the writer holds `["é\`
+    (a split escape, but a prefix), 7 calls were made, 4 buffers were handed over, the result is `Io` with that error -/
+example : wtest 100 [.short 1, .short 1, .intr, .short 1, .short 1, .short 1, .fail (.other 7), .short 1] (.short 1)
+    [0x5b, 0x22, 0xc3, 0xa9, 0x5c] 7 [[0x5b], [0x22], [0xc3, 0xa9], [0x5c, 0x22]] (.io { kind := .other 7 }) = true := by
+  decide +kernel
+
+/-- `Ok(0)` at the third call: `WriteZero`; nothing is offered afterwards -/
+example : wtest 100 [.short 9, .short 9, .zero] (.short 9) [0x5b, 0x22] 3 [[0x5b], [0x22], [0xc3, 0xa9]] (.io writeAllEof) = true := by
+  decide +kernel
+
+/-- a writer that answers `Interrupted` for ever: still looping after `fuel` calls, nothing accepted -/
+example : wtest 5 [] .intr [] 5 [[0x5b]] .hang = true := by decide +kernel
+
+/-- short writes and `Interrupted` only: everything arrives, in 12 calls -/
+example : wtest 100 [.intr, .intr] (.short 1) [0x5b, 0x22, 0xc3, 0xa9, 0x5c, 0x22, 0xc3, 0xa9, 0x22, 0x5d] 12
+    [[0x5b], [0x22], [0xc3, 0xa9], [0x5c, 0x22], [0xc3, 0xa9], [0x22], [0x5d]] .ok = true := by decide +kernel
+
+/-- a writer that claims 9 bytes of a 1-byte buffer: `&buf[9..]` panics -/
+example : (match toWriter 100 extI .compact (.seq none []) { policy := fun _ _ => .ok 9 } with
+    | .ok (_, r) => r == .panic | .error _ => false) = true := by decide +kernel
+
+end SJ.Props.C13
+
+
+namespace SJ.Props.C13
+open SJ SJ.Model.Ser SJ.Model.Write SJ.Model.WriteTrace SJ.Proofs.Write
+
+/-- **C13 (writer, every program).** `Model.WriteTrace.serT` is `Model.Ser.ser` that keeps the buffers written before
+    the serializer's own error (a non-string or non-finite-float map key): it agrees with `ser` on programs that
+    serialise, ends in the same error otherwise, and `toWriterT` is `toWriter` on the former. -/
+theorem c13_trace_agrees (fuel : Nat) (ext : Ext) (fmt : Fmt) (p : SVal) (w : Writer) :
+    match ser ext fmt p FState.init with
+    | .ok r => serT ext fmt p FState.init = { bufs := r.bufs, res := .ok r.st } ∧
+        ∃ w' res, toWriter fuel ext fmt p w = .ok (w', res) ∧ (toWriterT fuel ext fmt p w).1 = w' ∧
+          (toWriterT fuel ext fmt p w).2 = (match res with | .ok => .ok | .io e => .io e | .hang => .hang | .panic => .panic)
+    | .error e => (serT ext fmt p FState.init).res = .error e ∧ toWriter fuel ext fmt p w = .error e := by
+  cases h : ser ext fmt p FState.init with
+  | error e => exact ⟨Proofs.WriteTrace.serT_err ext fmt h, by simp [toWriter, h]⟩
+  | ok r =>
+    have ht := Proofs.WriteTrace.serT_ok ext fmt h
+    refine ⟨ht, (w.runBufs fuel r.bufs).1, Res.ofOut (w.runBufs fuel r.bufs).2, by simp [toWriter, h], ?_, ?_⟩
+    · simp only [toWriterT, ht]; cases (w.runBufs fuel r.bufs) with | mk w' o => cases o <;> rfl
+    · simp only [toWriterT, ht]; cases (w.runBufs fuel r.bufs) with | mk w' o => cases o <;> rfl
+
+/-- **C13 (writer, every program).** For EVERY program — also one whose serialisation fails by itself after having
+    written something —, either formatter, every writer (any policy) and every `fuel`: let `t.bufs` be the buffers the
+    serializer writes (all of them, or those before its own error; `serT`). After `to_writer` the writer holds what it held
+    plus `bytes`, a prefix of `t.bufs.flatten` — the output a fault-free writer receives (`c13_writer_all_vec`) —; the
+    `write` calls are a run against the policy with no call after the first fatal answer; and the result is
+
+    * `Ok(())` only if the program serialises and everything was accepted;
+    * the serializer's own error only if every buffer written before it was accepted whole (no fatal answer);
+    * `Err(Error::io(e))` only with a proper prefix accepted, `e` being the error of the last `write` call (or
+      `WRITE_ALL_EOF` after `Ok(0)`), never `Interrupted`: **a writer that fails before the serializer's own error is
+      reached gets its error reported, not masked by the later one**;
+    * `hang` / `panic` as in `c13_write_all_spec`. -/
+theorem c13_writer_all (fuel : Nat) (ext : Ext) (fmt : Fmt) (p : SVal) (w : Writer) :
+    ∃ bytes new j, (toWriterT fuel ext fmt p w).1.accepted = w.accepted ++ bytes ∧
+      bytes <+: (serT ext fmt p FState.init).bufs.flatten ∧
+      (toWriterT fuel ext fmt p w).1.log = w.log ++ new ∧ (toWriterT fuel ext fmt p w).1.policy = w.policy ∧
+      Run w.policy w.log new ∧ NoFatal new.dropLast ∧
+      (toWriterT fuel ext fmt p w).1.handed = w.handed ++ (serT ext fmt p FState.init).bufs.take j ∧
+      match (toWriterT fuel ext fmt p w).2 with
+      | .ok => bytes = (serT ext fmt p FState.init).bufs.flatten ∧ NoFatal new ∧
+          ∃ r, ser ext fmt p FState.init = .ok r
+      | .ser e => bytes = (serT ext fmt p FState.init).bufs.flatten ∧ NoFatal new ∧
+          ser ext fmt p FState.init = .error e
+      | .io e => bytes.length < (serT ext fmt p FState.init).bufs.flatten.length ∧ e.isInterrupted = false ∧
+          ∃ c, new.getLast? = some c ∧ ((c.res = .ok 0 ∧ e = writeAllEof) ∨ c.res = .err e)
+      | .hang => bytes.length < (serT ext fmt p FState.init).bufs.flatten.length ∧ NoFatal new ∧ fuel ≤ new.length
+      | .panic => ∃ c n, new.getLast? = some c ∧ c.res = .ok n ∧ c.buf.length < n := by
+  obtain ⟨bytes, new, j, he, hp, hpost, hh, _, _⟩ := runBufs_spec fuel (serT ext fmt p FState.init).bufs w
+  have hagree := Proofs.WriteTrace.ser_agree ext fmt p FState.init
+  simp only [toWriterT]
+  generalize hrun : w.runBufs fuel (serT ext fmt p FState.init).bufs = wr at he hpost hh
+  obtain ⟨w', o⟩ := wr
+  cases o with
+  | ok =>
+    simp only at hpost ⊢
+    refine ⟨bytes, new, j, he.acc, hp, he.log, he.pol, he.run, fun c hc => hpost.2 c (List.dropLast_subset _ hc), hh, ?_⟩
+    cases hs : ser ext fmt p FState.init with
+    | ok r =>
+      rw [hs] at hagree; simp only [Proofs.WriteTrace.Agree] at hagree
+      simp only [hagree]; rw [hagree] at hpost; exact ⟨hpost.1, hpost.2, r, rfl⟩
+    | error e =>
+      rw [hs] at hagree; simp only [Proofs.WriteTrace.Agree] at hagree
+      simp only [hagree]; exact ⟨hpost.1, hpost.2, trivial⟩
+  | hang =>
+    simp only at hpost ⊢
+    exact ⟨bytes, new, j, he.acc, hp, he.log, he.pol, he.run, fun c hc => hpost.2.1 c (List.dropLast_subset _ hc), hh, hpost⟩
+  | err e =>
+    simp only at hpost ⊢
+    obtain ⟨hl, pre, c, hnew, hpre, hc⟩ := hpost
+    refine ⟨bytes, new, j, he.acc, hp, he.log, he.pol, he.run, by rw [hnew, List.dropLast_concat]; exact hpre, hh, hl, ?_,
+      c, by rw [hnew]; simp, ?_⟩
+    · rcases hc with ⟨_, rfl⟩ | ⟨_, h⟩
+      · rfl
+      · exact h
+    · rcases hc with h | ⟨h, _⟩
+      · exact .inl h
+      · exact .inr h
+  | panic =>
+    simp only at hpost ⊢
+    obtain ⟨pre, c, n, hnew, hpre, hc⟩ := hpost
+    exact ⟨bytes, new, j, he.acc, hp, he.log, he.pol, he.run, by rw [hnew, List.dropLast_concat]; exact hpre, hh,
+      c, n, by rw [hnew]; simp, hc⟩
+
+/-- **C13 (writer, every program): the fault-free output.** Into a `Vec<u8>` (any `fuel ≥ 1`) the vector ends up holding
+    `(serT …).bufs.flatten`, and the result is `Ok(())` or the serializer's own error. -/
+theorem c13_writer_all_vec (fuel : Nat) (ext : Ext) (fmt : Fmt) (p : SVal) :
+    (toWriterT (fuel + 1) ext fmt p Writer.vec).1.accepted = (serT ext fmt p FState.init).bufs.flatten ∧
+    (toWriterT (fuel + 1) ext fmt p Writer.vec).2 =
+      (match ser ext fmt p FState.init with | .ok _ => .ok | .error e => .ser e) := by
+  obtain ⟨h1, h2⟩ := runBufs_vec fuel (serT ext fmt p FState.init).bufs Writer.vec rfl
+  have hagree := Proofs.WriteTrace.ser_agree ext fmt p FState.init
+  simp only [toWriterT]
+  generalize hrun : Writer.vec.runBufs (fuel + 1) (serT ext fmt p FState.init).bufs = wr at h1 h2
+  obtain ⟨w', o⟩ := wr
+  simp only at h1 h2
+  subst h1
+  refine ⟨by simpa [Writer.vec] using h2, ?_⟩
+  cases hs : ser ext fmt p FState.init with
+  | ok r => rw [hs] at hagree; simp only [Proofs.WriteTrace.Agree] at hagree; simp only [hagree]
+  | error e => rw [hs] at hagree; simp only [Proofs.WriteTrace.Agree] at hagree; simp only [hagree]
+
+/-- `{"a":1, [2]:3}` — the second key is a sequence: `{`, `"a"`, `:`, `1`, `,` are written, then `key must be a string`.
+    A writer failing at the 4th byte reports its own error; a writer that takes everything sees the serializer's. -/
+def badKey : SVal := .map none [(.str [0x61], .int .u8 1), (.seq none [.int .u8 2], .int .u8 3)]
+example : (serT extI .compact badKey FState.init).bufs = [[0x7b], [0x22], [0x61], [0x22], [0x3a], [0x31], [0x2c]] ∧
+    ser extI .compact badKey FState.init = .error .keyMustBeAString := ⟨rfl, rfl⟩
+example : ((toWriterT 9 extI .compact badKey (Writer.budget 3 { kind := .other 7 })).1.accepted == [0x7b, 0x22, 0x61] &&
+    (toWriterT 9 extI .compact badKey (Writer.budget 3 { kind := .other 7 })).2 == .io { kind := .other 7 } &&
+    (toWriterT 9 extI .compact badKey Writer.vec).1.accepted == [0x7b, 0x22, 0x61, 0x22, 0x3a, 0x31, 0x2c] &&
+    (toWriterT 9 extI .compact badKey Writer.vec).2 == .ser .keyMustBeAString) = true := by decide +kernel
+
+end SJ.Props.C13
+
+
+namespace SJ.Props.C13
+open SJ.Gen
+/-- **C13 (writer: no write error is swallowed — re-derived from `src/ser.rs` on every run).** `Model.Write.Writer.runBufs`
+    *defines* the serializer as stopping at the first failing `write_all`. What ties that to the source, besides the
+    correspondence op `wfault`: `tools/extract.py` (`gen_write`) scans every expression of `src/ser.rs` through which bytes
+    can reach the writer — `writer.write_all(..)`, every `Formatter` method call, `format_escaped_str(_contents)`, `indent`
+    (147 in the pinned tree) — and classifies how its `io::Result` is used. Each one is under `tri!(..)` (which is
+    `match $e { Ok(val) => val, Err(err) => return Err(err) }`: `triReturnsErr`), the tail expression of its block or
+    match arm, after `return`, followed by `?`, or scrutinised by the `match` of `collect_str`'s adapter that stores the
+    error; none is discarded (`let _ = ..;`, a bare statement, `.ok()`, a `let` that is combined later …), and no method
+    other than `write_all` (`write`, `flush`, `write_fmt`) is ever called on the writer. An edit of `ser.rs` that drops a
+    `tri!` or swallows a `Result` changes a generated constant and breaks this theorem. -/
+theorem c13_every_write_checked :
+    serUncheckedWriterCalls = [] ∧ serWriterOtherMethodCalls = [] ∧ triReturnsErr = true ∧
+    serWriterCalls = serWriterCallsTri + serWriterCallsTail + serWriterCallsReturn + serWriterCallsQuestion +
+      serWriterCallsMatched ∧ 100 < serWriterCalls := by decide
 end SJ.Props.C13
